@@ -12,7 +12,9 @@ LEVEL = "exploration"
 RULE = ("each case is a unit-scaled Linear / LinearReadout / Conv1d(single output position) with fan_in, fan_out log-uniform in "
         "[1,4096] (product <= 2^22), kernel 1-9, depth None or 1..64 (depth container padded with 1x1 layers), eta log-uniform "
         "in [1e-4,1], constraint default or None, Adam or AdamW (eps=0, weight_decay=0), float64, a random +-1 input and an "
-        "upstream gradient with no zero entry; layer(x) is recorded before and after one real optimizer.step(). Non-trivial = "
+        "upstream gradient with no zero entry; parameters reach the optimizer flat, as one explicit multi-tensor group or as groups of "
+        "one; depth containers may hold one tied layer instance; layer(x) is recorded before and after one real optimizer.step(). "
+        "Non-trivial = "
         "fan_in > 1; distinct = (layer kind, fan_in, fan_out, kernel, depth, optimizer, constraint).")
 ASSUMPTIONS = ["torch.optim.Adam with eps=0 moves each weight by lr*sign(grad) on the first step"]
 IMPORTS = ["unit_scaling._modules", "unit_scaling.optim", "unit_scaling.functional"]
